@@ -7,7 +7,8 @@ per-group state.
     must induce exactly this relation (`idsRespectGroups`). The value of a tag the point does not carry is the
     empty string (InfluxDB has no empty tag values; Go reads a missing map key as "").
     The group-by tags of a point are the configured dimensions, or — with `*` — all tag keys of the point
-    except the excluded ones (`dimsOk`).
+    except the excluded ones (`dimsOk`). A message that has passed further nodes is still grouped by measurement if
+    the task asked for it, and by the configured tags minus the ones a `delete` removed (`groupingOkAfter`).
 (2) ISOLATION. What a task emits for group g is the same whether or not points of other groups are interleaved:
     the sub-sequence of the full run's output that belongs to g equals the output of a run fed only g's points
     (`isolationHolds`), and nothing is emitted for a group that has no input.
@@ -18,13 +19,8 @@ Core Lean only.
 import Kap.Model.C06
 namespace Kap.C06
 
-/-- A point as grouping sees it: its measurement, its tags, and the grouping in force for it. -/
-structure GPoint where
-  byName : Bool
-  name : String
-  tags : Tags
-  dims : List String
-deriving Repr, Inhabited
+/- `GPoint` (a point as grouping sees it: its measurement, its tags, and the grouping in force for it) is plain data
+shared with the model: `Kap.C06.GPoint` in Kap/Model/C06.lean. -/
 
 /-- THE IDENTITY RELATION of the property. -/
 def sameGroup (p q : GPoint) : Bool :=
@@ -59,6 +55,26 @@ group has one dimension list, hence one spelling of its id, whatever the script 
 def dimsOk (star : Bool) (dims excl : List String) (tags : Tags) (od : List String) : Bool :=
   let want := if star then (tags.map (·.1)).filter (fun t => !excl.contains t) else dims
   od.all (fun t => want.contains t) && want.all (fun t => od.contains t) && sortedLt od
+
+/-- GROUPING BEHIND A STATELESS STAGE. `before` / `after` = (grouped by measurement?, group-by tags) a message carries
+before and behind the stage (`none` = a node that does not regroup at all: windows, aggregates, alert, eval, …):
+* a node that does not regroup leaves the grouping as it is — in particular "grouped by measurement" SURVIVES it;
+* `delete` of tags: still grouped by measurement iff it was; the group-by tags are exactly the previous ones that were
+  not deleted, in order, each once;
+* a further named `groupBy`: the group-by tags are the newly configured ones; grouped by measurement if this groupBy
+  asks for it, and not if neither this nor the earlier one did (whether an EARLIER by-measurement survives a later groupBy
+  that does not ask for it is left open: the documentation of `byMeasurement` and the code disagree, see the assumptions in checks/C06.json);
+* `default` / `eval` writing a tag: grouping unchanged (the point may move to another group through the new value). -/
+def groupingOkAfter (st : Option Stage) (before after : Bool × List String) : Bool :=
+  match st with
+  | none => after == before
+  | some (.delete del) =>
+    after.1 == before.1 &&
+    after.2.all (fun d => before.2.contains d && !del.contains d) &&
+    before.2.all (fun d => del.contains d || after.2.contains d) && sortedLt after.2
+  | some (.groupBy b dims) =>
+    (if b then after.1 else (before.1 || !after.1)) && dimsOk false dims [] [] after.2
+  | some (.defaultTag _ _) | some (.evalTag _ _) => after == before
 
 /-- An emitted message as observed at the sink: the group key it carries and its full rendering. -/
 structure ObsMsg where
